@@ -48,9 +48,38 @@ def index_literal(t):
     return None
 
 
+def polar_accessors(prog):
+    """private accessors `fn occ(&self, var, polarity) -> &Row { &(if polarity { &pos } else { &neg })[var.value_usize()] }`:
+    {fn npath: (fn, index of the polarity parameter, index of the label parameter, True if `true` selects the pos table)}"""
+    acc = {}
+    for fn in prog.lib_fns:
+        if not any(m in fn.npath for m in MODULES) or fn.terms.ret is None or "{closure" in fn.npath:
+            continue
+        r = strip(fn.terms.ret)
+        while isinstance(r, tuple) and r and r[0] in ("ref", "deref"):
+            r = strip(r[1])
+        if not (mir.is_call(r, "index") or mir.is_call(r, "index_mut")) or len(r[2]) != 2:
+            continue
+        ba = bool_arms(strip(r[2][0]))
+        ix = strip(r[2][1])
+        if not ba or strip(ba[0])[0] != "param":
+            continue
+        sf, st = table_sign(fn, ba[1]), table_sign(fn, ba[2])
+        if not (sf and st and sf != st):
+            continue
+        lab = None
+        if (mir.is_call(ix, "value_usize") or mir.is_call(ix, "value")) and strip(ix[2][0])[0] == "param":
+            lab = strip(ix[2][0])[1]
+        if lab is None:
+            continue
+        acc[fn.npath] = (fn, strip(ba[0])[1], lab, st == "pos")
+    return acc
+
+
 def run(prog):
     out = []
     n = 0
+    accessors = polar_accessors(prog)
     for fn in prog.lib_fns:
         if not fn.npath.startswith(MODULES) and not any(m in fn.npath for m in MODULES):
             continue
@@ -58,7 +87,23 @@ def run(prog):
             continue
         te = fn.terms
         accesses = []
+        if fn.npath in accessors:
+            continue        # checked at its call sites, where the literal is known
         for cs in te.calls:
+            hs_ = [h for h in prog.resolve(cs.callee)] if (cs.callee.local or getattr(cs.callee, "res_local", False)) else []
+            if len(hs_) == 1 and hs_[0].npath in accessors:
+                _, kp, kl, true_is_pos = accessors[hs_[0].npath]
+                if kp - 1 < len(cs.args) and kl - 1 < len(cs.args):
+                    pa, la = strip(cs.args[kp - 1]), strip(cs.args[kl - 1])
+                    inv = False
+                    while pa[0] == "un" and pa[1] == "Not":
+                        pa, inv = strip(pa[2]), not inv
+                    if mir.is_call(pa, "polarity") and mir.is_call(la, "label"):
+                        side = "same" if (true_is_pos != inv) else "opposite"
+                        accesses.append((cs, strip(pa[2][0]), side, strip(la[2][0]), "γ"))
+                    else:
+                        accesses.append((cs, None, None, None, "γ"))
+                continue
             if cs.callee.name not in ("index", "index_mut") or not cs.args:
                 continue
             tab = cs.args[0]
@@ -198,8 +243,24 @@ def wp3(prog):
                         errs.append("line %d: the hash update is guarded by %s: the model asked is not the base state's model, so "
                                     "literals assigned in this very step are treated as already accounted for"
                                     % (cs.line, show(c)[:70]))
+        # the guard may be the predicate of a `filter` in front of a `fold` that multiplies: look into the closures
+        for k in [g for g in prog.lib_fns if g.npath.startswith(fn.npath + "::{closure")]:
+            caps = {}
+            for a in te.aggs:
+                t_ = a[1]
+                if isinstance(t_, tuple) and t_[0] == "agg" and t_[1] == "closure" and t_[2] == k.npath and len(t_) > 5 and t_[5]:
+                    caps = dict(zip(t_[5], t_[4]))
+            for cs in k.terms.calls:
+                if "PartialModel" in (cs.callee.key() or "") and cs.callee.name in ("is_set", "get", "lit_implied", "lit_neg_implied") and cs.args:
+                    from . import canon
+                    recv = canon.subst(cs.args[0], None, caps)
+                    nq += 1
+                    if not is_base(recv, "model"):
+                        errs.append("line %d: the hash update is guarded by %s: the model asked is not the base state's model, so "
+                                    "literals assigned in this very step are treated as already accounted for"
+                                    % (cs.line, show(recv)[:70]))
         if nq == 0:
-            errs.append("no model query guards the hash update of a newly satisfied clause")
+            errs.append("?no model query guards the hash update of a newly satisfied clause")
         out.append(inst("WP", "%s:WP3:one-base-state" % fn.npath, VIOLATION if errs else OK, fn, None,
                         "; ".join(errs) if errs else "hash, satisfied set, difference and the 'still unassigned' test all refer to top_state()"))
     return out
